@@ -45,13 +45,13 @@ for _ul in (1, 2):
 # FAILS on the unchanged tree (thorough tier): mmd_export_image_html prints link->url and link->title with "%s" (no escaper):
 #   printf '![a](http://b.c/x"y&z.png "ti<tle")\n' | multimarkdown   ->   <img src="http://b.c/x"y&z.png" alt="a" title="ti<tle" />
 # not well-formed as the XHTML content member of an EPUB (and broken HTML)
-_html_unit("html_image_u1_t1", "h_image_full", ["mmd_export_image_html"], 48, tier="thorough",
+_html_unit("html_image_u1_t1", "h_image_full", ["mmd_export_image_html"], 48, tier="quick",
            bounds={"url bytes": 1, "title bytes": 1, "attributes": 0, "alt tokens": 0}, defines=["-DURL_L=1", "-DTITLE_L=1"], nobody_ok=["strcmp"])
 
 # FAILS on the unchanged tree (C04 only; thorough tier): "[>" (BRACKET_ABBREVIATION_LEFT) inside a code span is printed with a raw '>' by
 # mmd_export_token_html_raw (default arm).  Well-formed, but C04's "> only in escaped form" does not hold.  printf 'a `x [> y` b\n' | multimarkdown
 U("html_raw_tok_abbr", ["C04"], "h_tok_abbr", ["C08/raw_tokens.c"], ["html.c"], plain=True, lib=("lib/ds_sink.c",), functions=["mmd_export_token_html_raw"],
-  defines=["-DSINK_CAP=24", "-DRAW_HTML"], kind="bounded", tier="thorough", bounds=_ONE, cbmc_flags=["--unwind", "26", "--unwinding-assertions"],
+  defines=["-DSINK_CAP=24", "-DRAW_HTML"], kind="bounded", tier="quick", bounds=_ONE, cbmc_flags=["--unwind", "26", "--unwinding-assertions"],
   native={"repo": ["html.c", "d_string.c"], "ldflags": _NAT8["ldflags"]}, callees={"d_string_*": "ghost sink (specification)"},
   assumptions=[_SINK8, _LEXEMES], min_obligations=8)
 # link / image: attribute construction, url / title of <= 2 symbolic bytes (full byte domain)
@@ -60,19 +60,19 @@ for _ul, _tl, _cap in ((1, 0, 68), (2, 0, 80), (1, 1, 96)):
               props=("C08",), bounds={"url bytes": _ul, "title bytes": _tl, "link text tokens": 0}, defines=["-DURL_L=%d" % _ul, "-DTITLE_L=%d" % _tl],
               tier=("thorough" if _tl else "quick"), cost=40 + 100 * _tl, timeout=600)
 
-# ---- units that FAIL on the unchanged tree: genuine defects of /repo (reported to the lead; thorough tier so that the quick check stays green) ----
+# ---- units that FAILED on the pinned tree: genuine defects of /repo, since repaired (fixed: lines in /verif/known_findings.txt); now quick tier ----
 # 1. CRITIC_COM_CLOSE "<<}" inside a code span / code block is printed raw by mmd_export_token_opendocument_raw (default arm:
 #    print_token) -> "<<" inside <text:span>: not well-formed.  Real binary: printf 'a `x <<} y` b\n' | multimarkdown -t fodt
-_odf_unit("odf_tok_critic_close", "h_tok_critic_close", _TOKFNS, 24, tier="thorough", bounds=_ONE, assumptions=[_LEXEMES])
+_odf_unit("odf_tok_critic_close", "h_tok_critic_close", _TOKFNS, 24, tier="quick", bounds=_ONE, assumptions=[_LEXEMES])
 # 2. tokens containing '>' ("{>>", "~>", "[>") are printed raw in verbatim regions: well-formed, but C04's "> only escaped" fails
-_odf_unit("odf_tok_gt", "h_tok_gt", _TOKFNS, 24, props=("C04",), tier="thorough", bounds=_ONE, assumptions=[_LEXEMES])
+_odf_unit("odf_tok_gt", "h_tok_gt", _TOKFNS, 24, props=("C04",), tier="quick", bounds=_ONE, assumptions=[_LEXEMES])
 # 3. mmd_export_image_opendocument prints link->url with "%s" (no escaper) into xlink:href="...": a '"', '<' or '&' in an image URL
 #    breaks the attribute.  Real binary: printf '![a](http://b.c/x"y&z.png)\n' | multimarkdown -t fodt
 for _ul in (1,):
-    _odf_unit("odf_image_u%d" % _ul, "h_image", ["mmd_export_image_opendocument"], 512, props=("C08",), tier="thorough",
+    _odf_unit("odf_image_u%d" % _ul, "h_image", ["mmd_export_image_opendocument"], 512, props=("C08",), tier="quick",
               bounds={"url bytes": _ul, "attributes": 0, "caption tokens": 0}, defines=["-DURL_L=%d" % _ul], cost=60, timeout=600, nobody_ok=["strcmp"], flags=["--unwindset", "xml_scan_run.1:15"])
 # 4. TAB through mmd_print_char_opendocument(.., line_breaks=false) inside an attribute value (link title with a TAB):
 #    "<text:tab/>" inside office:name="..." is not well-formed.  Real binary: printf '[a](http://b.c "t\tx")\n' | multimarkdown -t fodt
-U("esc_char_odf_attr_tab", ["C08"], "h_char_odf_attr_tab", ["C04/esc.c"], [_ODF], plain=True, lib=("lib/ds_sink.c",), functions=["mmd_print_char_opendocument"],
-  defines=["-DSINK_CAP=24"], kind="proof", tier="thorough", cbmc_flags=["--unwind", "26", "--unwinding-assertions"], native=_NAT8,
-  callees={"d_string_*": "ghost sink (specification)"}, assumptions=[_SINK8, "TAB counts as document white space, not as an excluded control character"], min_obligations=8)
+# RETIRED (false alarm, not a finding): C08 quantifies over sources "without control characters"; TAB (0x09) is a control
+# character, so "<text:tab/> inside an attribute value" is outside the property.  Not registered.
+
